@@ -1643,9 +1643,20 @@ func (fr *frame) runDefers(st *State) {
 // assertsAtCall emits the "assert[call:Name]" clauses of the function under verification before a
 // call whose callee (function or method) has that name.
 func (fr *frame) assertsAtCall(st *State, x *ssa.Call) {
-	if !fr.top || fr.bc == nil || len(fr.bc.Asserts) == 0 || fr.u.specMode > 0 {
+	// the clauses belong to the function under verification (the top frame); they are also checked before matching
+	// calls made by callees executed in place (inlined helpers, deferred closures), evaluated over the top function's
+	// locals at its current program point: moving a guarded call into a helper does not take it out of the clause
+	if fr.u.specMode > 0 {
 		return
 	}
+	inl := fr
+	for fr != nil && !fr.top {
+		fr = fr.parent
+	}
+	if fr == nil || fr.bc == nil || len(fr.bc.Asserts) == 0 {
+		return
+	}
+	inlined := inl != fr
 	name, qual, short := "", "", ""
 	byName := func(p *types.Package) string { return p.Name() }
 	if x.Call.IsInvoke() {
@@ -1676,6 +1687,9 @@ func (fr *frame) assertsAtCall(st *State, x *ssa.Call) {
 		if env == nil {
 			env = fr.specEnv(fr.bc, st)
 			env.ctx = x.Block()
+			if inlined {
+				env.ctx = fr.curBlk
+			}
 		}
 		g := env.evalBool(as.Expr)
 		if as.Clause.Kind == "assume" {
@@ -1684,7 +1698,11 @@ func (fr *frame) assertsAtCall(st *State, x *ssa.Call) {
 			fr.u.assume(st, g)
 			continue
 		}
-		fr.u.oblige(st, "assert", "at call "+name+": "+strings.Join(strings.Fields(as.Clause.Text), " "), x.Pos(), g)
+		lbl := "at call " + name
+		if inlined {
+			lbl += " [in " + inl.fn.Name() + "]"
+		}
+		fr.u.oblige(st, "assert", lbl+": "+strings.Join(strings.Fields(as.Clause.Text), " "), x.Pos(), g)
 		_ = g // asserted facts are not added as hypotheses: each assert stands alone and later queries stay small
 	}
 }
